@@ -61,7 +61,8 @@ prim_cor!(i64, "i64", Prim::Int64, [0, i64::MIN, i64::MAX], |x| Val::IntN(64, *x
 prim_cor!(isize, "isize", Prim::Int64, [-1, isize::MIN], |x| Val::IntN(64, *x as i64));
 prim_cor!(f32, "f32", Prim::Float32, [0.0, -0.0, 1.5, f32::from_bits(0x7fc00001), f32::from_bits(0x7fa00000), f32::from_bits(0xff800001)], |x| Val::F32(x.to_bits()));
 prim_cor!(f64, "f64", Prim::Float64, [0.0, -0.0, 1.5, f64::from_bits(0x7ff8000000000001), f64::from_bits(0x7ff4000000000000), f64::from_bits(0xfff0000000000001)], |x| Val::F64(x.to_bits()));
-prim_cor!(String, "String", Prim::Text, ["".to_string(), "a".to_string(), "é😀".to_string()], |x| Val::Text(x.clone()));
+// the last value is 256 bytes long with a 2-byte character across byte 255/256 (length prefix needs two LEB128 bytes)
+prim_cor!(String, "String", Prim::Text, ["".to_string(), "a".to_string(), "é😀".to_string(), format!("{}é", "s".repeat(254))], |x| Val::Text(x.clone()));
 prim_cor!((), "unit", Prim::Null, [()], |_x| Val::Null);
 prim_cor!(Reserved, "Reserved", Prim::Reserved, [Reserved], |_x| Val::Reserved);
 prim_cor!(
@@ -158,7 +159,7 @@ impl Cor for serde_bytes::ByteBuf {
         "ByteBuf".into()
     }
     fn small() -> Vec<Self> {
-        vec![serde_bytes::ByteBuf::from(vec![]), serde_bytes::ByteBuf::from(vec![0, 255]), serde_bytes::ByteBuf::from(vec![7])]
+        vec![serde_bytes::ByteBuf::from(vec![]), serde_bytes::ByteBuf::from(vec![0, 255]), serde_bytes::ByteBuf::from(vec![7]), serde_bytes::ByteBuf::from((0..=256u32).map(|i| (i % 256) as u8).collect::<Vec<u8>>())]
     }
     fn to_ty(_: &mut Env) -> Ty {
         Ty::vec(p(Prim::Nat8))
@@ -175,6 +176,7 @@ impl Cor for Func {
         vec![
             Func { principal: principals()[0], method: "".into() },
             Func { principal: principals()[2], method: "é m".into() },
+            Func { principal: principals()[1], method: format!("{}é", "m".repeat(255)) },
         ]
     }
     fn to_ty(_: &mut Env) -> Ty {
@@ -449,6 +451,8 @@ pub struct Entry {
     pub roundtrip: fn(usize, Api) -> Result<(), String>,
     /// native decoding of an arbitrary message at this type
     pub decode: fn(&[u8]) -> Native,
+    /// native decoding of an arbitrary message at `Option<T>` (failures below an option must be recoverable)
+    pub decode_opt: fn(&[u8]) -> Native,
     /// `builder.arg(&small()[i])`; returns the abstract value pushed
     pub arg_into: fn(&mut candid::ser::IDLBuilder, usize) -> Result<Val, String>,
     /// `de.get_value::<T>()`, compared with small()[i]
@@ -649,6 +653,7 @@ pub fn entry<T: Cor>() -> Entry {
         encode: encode::<T>,
         roundtrip: roundtrip::<T>,
         decode: decode::<T>,
+        decode_opt: decode::<Option<T>>,
         arg_into: arg_into::<T>,
         get_from: get_from::<T>,
         touch_ty: || format!("{:?}", catch(|| T::ty())),
